@@ -209,3 +209,114 @@ func suiteRecompose(tier string, seed uint64, model string) *Report {
 	rep.Rule = "struct types generated with reflect.StructOf (anonymous types; field kinds bool, ten integer kinds, float64, string, any, pointers, slices, maps, nested generated and named structs, embedded named structs and pointers to them, name and omitempty tags) and seeded values; Decompose (exact, lower-case and tag keys, create key ^) -> Recompose into a new value of the type on a fresh Recomposer and on one with a seeded history of 0-4 other recompositions (same-named types from another package, named and anonymous struct types); oj.Marshal -> oj.Unmarshal and sen.String -> sen.Unmarshal through the default recomposer; results compared as canonical JSON (exact keys, nil and empty containers not distinguished); non-trivial = distinct struct types"
 	return rep
 }
+
+// directed round trips on hand-written types: embedded structs whose tag gives a name, unsigned
+// values beyond int64 in containers, whole floats held in interfaces; through every unmarshal
+// entry point; compared with reflect.DeepEqual (types included)
+type dAudit struct {
+	By string
+	At int
+}
+type dGeo struct{ Lat, Lon float64 }
+type dDoc struct {
+	dAudit `json:"audit"`
+	*dGeo  `json:"geo,omitempty"`
+	Title  string
+}
+type DAudit struct {
+	By string
+	At int
+}
+type DGeo struct{ Lat, Lon float64 }
+type DDoc struct {
+	DAudit `json:"audit"`
+	*DGeo  `json:"geo,omitempty"`
+	Title  string
+}
+type DUns struct {
+	U uint64
+	L []uint64
+	M map[string]uint64
+	P *uint64
+	A [2]uint
+}
+type DAny struct {
+	F any
+	M map[string]any
+	L []any
+}
+
+func suiteRecomposeDirected(tier string, seed uint64) *Report {
+	rep := &Report{Property: "C16", Tier: tier, Seed: seed}
+	r := NewRng(seed + 1616)
+	big := []uint64{0, 1, 1 << 62, 1<<63 - 1, 1 << 63, 1<<63 + 1, 0xcbf29ce484222325, 1<<64 - 2, 1<<64 - 1}
+	pick := func() uint64 { return big[r.Intn(len(big))] }
+	whole := []float64{20, 0, -3, 1e6, 2.5, 1e15}
+	var vals []any
+	for i := 0; i < 40; i++ {
+		d := &DDoc{DAudit: DAudit{By: r.Pick([]string{"", "me"}), At: r.Intn(3)}, Title: r.Pick([]string{"t", ""})}
+		if r.Bool() {
+			d.DGeo = &DGeo{Lat: float64(r.Intn(5)) + 0.5, Lon: float64(r.Intn(5))}
+		}
+		vals = append(vals, d)
+		p := pick()
+		vals = append(vals, &DUns{U: pick(), L: []uint64{pick(), pick()}, M: map[string]uint64{"k": pick()}, P: &p, A: [2]uint{uint(pick()), uint(pick())}})
+		vals = append(vals, &DAny{F: whole[r.Intn(len(whole))], M: map[string]any{"k": whole[r.Intn(len(whole))], "s": "x"}, L: []any{whole[r.Intn(len(whole))], true}})
+	}
+	for _, v := range vals {
+		desc := fmt.Sprintf("%T %s", v, oj.JSON(v, &ojg.Options{Sort: true}))
+		fresh := func() any { return reflect.New(reflect.TypeOf(v).Elem()).Interface() }
+		check := func(where string, run func(p any) error) {
+			rep.Evaluations++
+			out := safe(func() string {
+				p := fresh()
+				if err := run(p); err != nil {
+					return "error: " + err.Error()
+				}
+				if !reflect.DeepEqual(v, p) {
+					return "differs: " + fmt.Sprintf("%#v", reflect.ValueOf(p).Elem().Interface())
+				}
+				return "ok"
+			})
+			if out != "ok" {
+				rep.Add(Disagreement{Case: desc, Where: where, Kind: "impl-law:roundtrip-directed", Impl: out, Spec: fmt.Sprintf("%#v", reflect.ValueOf(v).Elem().Interface())})
+			}
+		}
+		for _, o := range []ojg.Options{{KeyExact: true}, {}, {UseTags: true}} {
+			oo := o
+			check(fmt.Sprintf("Decompose{exact=%v,tags=%v}/Recompose", o.KeyExact, o.UseTags), func(p any) error {
+				_, err := alt.Recompose(alt.Decompose(v, &oo), p)
+				return err
+			})
+		}
+		if _, isUns := v.(*DUns); isUns {
+			continue // numbers beyond int64 are read as big numbers by the parsers (recorded under C02)
+		}
+		check("oj.Marshal/oj.Unmarshal", func(p any) error {
+			b, err := oj.Marshal(v)
+			if err != nil {
+				return err
+			}
+			return oj.Unmarshal(b, p)
+		})
+		check("oj.Marshal/oj.Parser.Unmarshal", func(p any) error {
+			b, err := oj.Marshal(v)
+			if err != nil {
+				return err
+			}
+			var ps oj.Parser
+			return ps.Unmarshal(b, p)
+		})
+		check("sen.String/sen.Unmarshal", func(p any) error {
+			o := ojg.GoOptions
+			return sen.Unmarshal([]byte(sen.String(v, &o)), p)
+		})
+		check("sen.String/sen.Parser.Unmarshal", func(p any) error {
+			o := ojg.GoOptions
+			var ps sen.Parser
+			return ps.Unmarshal([]byte(sen.String(v, &o)), p)
+		})
+	}
+	rep.Rule = "directed round trips (reflect.DeepEqual): embedded structs whose tag names them, unsigned values beyond int64 in fields / slices / maps / pointers / arrays, whole floats held in any / map[string]any / []any; Decompose/Recompose under three naming plans and Marshal/Unmarshal through oj.Unmarshal, oj.Parser.Unmarshal, sen.Unmarshal, sen.Parser.Unmarshal"
+	return rep
+}
